@@ -1356,3 +1356,9 @@ package profile
 //@     step placed_inside: atiter(1, l.Mapping == nil) && l.Address != 0 ==> (l.Mapping == fake || (l.Mapping.Start <= l.Address && forall k int :: 0 <= k && k < len(p.Mapping) && p.Mapping[k] == l.Mapping ==> l.Address < p.Mapping[k].Limit || l.Address < atiter(1, p.Mapping[k].Start)))
 //@   loop 3
 //@     invariant starts_kept: forall k int :: 0 <= k && k < len(p.Mapping) ==> p.Mapping[k].Start == atiter(1, p.Mapping[k].Start)
+
+// ---- C01 (strengthened after seeded change gzip-inflate-size-cap-truncates): a gzip-wrapped profile is inflated from
+// the gzip reader itself, to its end — no size-limiting or otherwise truncating reader sits between the inflater and
+// ReadAll.
+//@ func ParseData nosafety
+//@   callsite ReadAll whole_stream: $arg0 == boxed(gz)
